@@ -60,52 +60,76 @@ def gen(tier, rng):
     for i in range(n):
         b = shapes.B(f"c07_{i}")
         cands, contains = universe(rng, b)
-        size = rng.randint(0, 6) if len(cands) < 8 else rng.randint(5, 12)
-        want_dup = size >= 2 and rng.random() < 0.5
-        members = []
-        used = set()
-        pool = list(cands)
-        rng.shuffle(pool)
-        for c in pool:
-            if len(members) >= size:
-                break
-            if contains[c] & used:
-                continue
-            members.append(c)
-            used |= contains[c]
-        planted = None
-        if want_dup and len(members) >= 1:
-            i0 = rng.randrange(len(members))
-            victim = members[i0]
-            # something that reaches a lock of the victim: the victim itself, or another candidate overlapping it
-            overlapping = [c for c in cands if contains[c] & contains[victim]]
-            if overlapping:
-                dup = rng.choice(overlapping)
-                j = rng.randrange(len(members) + 1)
-                members.insert(j, dup)
-                planted = (i0, j)
+        def pick():
+            size = rng.randint(0, 6) if len(cands) < 8 else rng.randint(5, 12)
+            want_dup = size >= 2 and rng.random() < 0.5
+            members = []
+            used = set()
+            pool = list(cands)
+            rng.shuffle(pool)
+            for c in pool:
+                if len(members) >= size:
+                    break
+                if contains[c] & used:
+                    continue
+                members.append(c)
+                used |= contains[c]
+            planted = None
+            if want_dup and len(members) >= 1:
+                i0 = rng.randrange(len(members))
+                victim = members[i0]
+                # something that reaches a lock of the victim: the victim itself, or another candidate overlapping it
+                overlapping = [c for c in cands if contains[c] & contains[victim]]
+                if overlapping:
+                    dup = rng.choice(overlapping)
+                    j = rng.randrange(len(members) + 1)
+                    members.insert(j, dup)
+                    planted = (i0, j)
+            return members, planted
+        # half of the scenarios: an earlier checked construction over the same locks, on the same thread (accepted or
+        # rejected): the answer of the second one must not depend on it
+        pre = None
+        if rng.random() < 0.5:
+            pm, pp = pick()
+            pk = rng.choice(["boxed", "ref", "retry"])
+            pre = (b.coll(pk, pm, cont=rng.choice(shapes.CONTS), ctor="try"), pk, pm, pp)
+        members, planted = pick()
         kind = rng.choice(["boxed", "ref", "retry"])
         cont = rng.choice(shapes.CONTS)
         t = b.coll(kind, members, cont=cont, ctor="try")
-        s = b.scen(meta={"kind": kind, "tested": t, "members": members, "planted": planted,
-                         "desc": b.desc[t], "nested": any(c not in b.leaf_of for c in members)})
+        s = b.scen(meta={"kind": kind, "tested": t, "members": members, "planted": planted, "pre": pre,
+                         "desc": (b.desc[pre[0]] + " then " if pre else "") + b.desc[t],
+                         "nested": any(c not in b.leaf_of for c in members)})
         scens.append(s)
     return scens
+
+
+def one_expr(s, r, t, kind, members):
+    inner = "SSeq [" + "; ".join(s.shape(m) for m in members) + "]"
+    la, ua = r["adr"]
+    return (f"check_C07 {'false' if kind == 'retry' else 'true'} [{'; '.join(map(str, la))}] "
+            f"[{'; '.join(map(str, ua))}] ({inner}) {'true' if r['ctor'][t] else 'false'}")
 
 
 def coq_expr(s, r):
     t = s.meta["tested"]
     if t not in r["ctor"]:
         return None
-    inner = "SSeq [" + "; ".join(s.shape(m) for m in s.meta["members"]) + "]"
-    la, ua = r["adr"]
-    return (f"check_C07 {'false' if s.meta['kind'] == 'retry' else 'true'} [{'; '.join(map(str, la))}] "
-            f"[{'; '.join(map(str, ua))}] ({inner}) {'true' if r['ctor'][t] else 'false'}")
+    e = one_expr(s, r, t, s.meta["kind"], s.meta["members"])
+    pre = s.meta.get("pre")
+    if not pre:
+        return e
+    if pre[0] not in r["ctor"]:
+        return None
+    e0 = one_expr(s, r, pre[0], pre[1], pre[2])
+    return (f"let a := {e0} in let b := {e} in mkv (v_strict a && v_strict b) (v_proj a && v_proj b) "
+            f"(v_mon a && v_mon b) (v_monk a && v_monk b)")
 
 
 def classify(s, r):
     return [f"kind={s.meta['kind']}", f"len={len(s.meta['members'])}",
             "dup=" + ("planted" if s.meta["planted"] else "none"),
+            "earlier_try_new=" + ("none" if not s.meta.get("pre") else "rejected" if not r["ctor"].get(s.meta["pre"][0]) else "accepted"),
             "result=" + ("some" if r["ctor"].get(s.meta["tested"]) else "none")]
 
 
